@@ -437,25 +437,37 @@ def case_rates(m, spec, eq, rec):
             v, info = eq.check(dur[0], 2 * mat)
             rec('rates.d1_is_2_mat', V(v), **(dict(info, duration=str(dur[0])[:200]) if v != 'equal' else {}))
     elif spec.startswith('transits'):
-        n = int(spec[-1])
-        m2 = pm.set_transit_compartments(m, n)
+        seq = [int(x) for x in spec[len('transits'):].split('>')]
+        n = seq[-1]
+        m2 = m
+        for k_ in seq:
+            m2 = pm.set_transit_compartments(m2, k_)
         d = semeq.denote(m2.statements)
         mdt = d.ode_env.get(sympy.Symbol('MDT')) if d.ode_env else None
         if mdt is None:
             rec('rates.transit_rate', 'inconclusive', what='no MDT')
             return
         ok = True
+        which = None   # the same convention (n or n+1 over MDT) for every transit compartment of one model
+        count = 0
         for amt, rhs in d.odes.items():
             if str(amt).startswith('A_TRANSIT'):
+                count += 1
                 k = sympy.simplify(-rhs.coeff(amt))
-                # documented: mean transit time MDT over the n transit compartments + depot: each rate is (n+1)/MDT
+                # documented: mean transit time MDT over the n transit compartments (+ depot): each rate is n/MDT
+                # (or (n+1)/MDT when the depot counts)
                 v1, _ = eq.check(k, (n + 1) / mdt, extra=[mdt > 0])
                 v2, info = eq.check(k, n / mdt, extra=[mdt > 0])
-                if v1 != 'equal' and v2 != 'equal':
-                    rec('rates.transit_rate', V(v2), **dict(info, rate=str(k)[:200], n=n))
+                this = 'n+1' if v1 == 'equal' else ('n' if v2 == 'equal' else None)
+                if this is None or (which is not None and this != which):
+                    rec('rates.transit_rate', V(v2) if this is None else 'violated',
+                        **dict(info, rate=str(k)[:200], n=n, compartment=str(amt), convention_so_far=which))
                     ok = False
                     break
-        if ok:
+                which = this
+        if ok and count != n:
+            rec('rates.transit_rate', 'violated', what=f'{count} transit compartments, {n} requested')
+        elif ok:
             rec('rates.transit_rate', 'discharged')
 
 
@@ -519,7 +531,7 @@ def all_cases(thorough):
             cases.append((start, 'allometry', (c, 70)))
         for e in ('additive', 'proportional', 'combined', 'power'):
             cases.append((start, 'error', e))
-        for r in ('fo_abs', 'zo_abs', 'transits1', 'transits3'):
+        for r in ('fo_abs', 'zo_abs', 'transits1', 'transits3', 'transits3>5', 'transits5>2', 'transits2>4'):
             cases.append((start, 'rates', r))
         occ = [c for c in ('FA1', 'VISI', 'OCC') if c in m.datainfo.names and not m.datainfo[c].drop][:1]
         for o in occ:
